@@ -46,7 +46,7 @@ def one(rep, rng, j):
     for n in names:
         if spec['tasks'][n]['type'] == 'NJ' and shapes[n]['shape'] == 'big' and rng.random() < 0.5:
             shapes[n]['shape'] = 'nested'
-    wit = {'spec': spec, 'B': [B1, B2, B3], 'storage': skind, 'shapes': shapes}
+    wit = {'spec': spec, 'B': [B1, B2, B3], 'storage': skind, 'shapes': shapes, 'job': {'seed': rep.seed, 'j': j}}
     try:
         engine.write_plan(ctl, 1, shapes)
         b1 = Built(spec, rng=random.Random(rng.randrange(1 << 30)), fresh_prob=rng.choice([0, 0.5]))
@@ -202,6 +202,11 @@ def run_shard(rep):
 
 
 def replay(rep, wit):
+    from vlab.dagcommon import scenario_rng
     rep.case('a', True)
     rep.case('b', True)
-    rep.inconclusive('C06 witnesses are re-run by seed: VERIF_SEED=<seed> python -m vlab.check C06')
+    job = wit['witness'].get('job')
+    if not job:
+        rep.inconclusive('witness without job id: rerun with VERIF_SEED=<seed> python -m vlab.check C06')
+        return
+    one(rep, scenario_rng(job['seed'], 'C06', job['j']), job['j'])
